@@ -9,6 +9,7 @@ package oracle
 // list is cleared, and a result that already existed is never overwritten.
 //@ func EndBlocker
 //@ modifies Store_oracle, Other, Bank
+//@ requires keeper.wfRequests(Store_oracle)
 //@ requires forall i :: 0 <= i && i < len(keeper.pendingIDs(Store_oracle)) ==>
 //@             has(Store_oracle, types.RequestStoreKey(keeper.pendingIDs(Store_oracle)[i])) && !has(Store_oracle, types.ResultStoreKey(keeper.pendingIDs(Store_oracle)[i]))
 //@ requires forall i, j :: 0 <= i && i < j && j < len(keeper.pendingIDs(Store_oracle)) ==> keeper.pendingIDs(Store_oracle)[i] != keeper.pendingIDs(Store_oracle)[j]
@@ -20,3 +21,4 @@ package oracle
 //@ loop 0: invariant forall j :: 0 <= j && j < #i ==> has(Store_oracle, types.ResultStoreKey(#coll[j]))
 //@ loop 0: invariant forall id Int :: old(has(Store_oracle, types.ResultStoreKey(id))) ==> Store_oracle[types.ResultStoreKey(id)] == old(Store_oracle)[types.ResultStoreKey(id)]
 //@ loop 0: invariant Store_oracle[types.PendingResolveListStoreKey] == old(Store_oracle)[types.PendingResolveListStoreKey]
+//@ loop 0: invariant keeper.wfRequests(Store_oracle)
